@@ -646,6 +646,37 @@ def r_offset_book(ctx):
     rep.oblige(writers.get("buffered_byte_length", set()) <= {"ensure_data_read", "private_read", "with_capacity"}, "BOOK|writers|filled", "src/tag_iterator.rs",
                "buffered_byte_length is written outside ensure_data_read/private_read: %s" % sorted(writers.get("buffered_byte_length", ())))
     rep.oblige(movers <= {"ensure_data_read"}, "BOOK|movers", "src/tag_iterator.rs", "buffer contents are moved outside ensure_data_read: %s" % sorted(movers))
+    # replacing the buffer (growth) must carry every byte over at its index: the new contents derive from the whole old buffer
+    n_repl = 0
+    for b in iter_bodies(prog):
+        root = prog.function_root(b)
+        rn = root.name if root is not None else b.name
+        if rn in ("with_capacity", "new"):
+            continue
+        ws = [st for bb, i, st in b.statements() if st["k"] == "assign" and st["place"]["proj"] and st["place"]["proj"][-1].get("name") == "buffer"]
+        if not ws:
+            continue
+        n_repl += 1
+        partial = []
+        for cb, t, c in b.calls():
+            if c is None or len(t["args"]) < 2:
+                continue
+            if strip_generics(c["path"]) in ("std::ops::Index::index", "std::ops::IndexMut::index_mut"):
+                a0, a1 = t["args"][0], t["args"][1]
+                src = local_sources(b, a0["place"]["local"]) if a0.get("k") in ("copy", "move") else set()
+                for e in (a0.get("place") or {}).get("proj", []):
+                    if e["k"] == "field" and e.get("name"):
+                        src.add("field:" + e["name"])
+                rty = (a1.get("place") or {}).get("ty") or a1.get("ty") or {}
+                if "field:buffer" in src and rty.get("k") == "adt" and not strip_generics(rty.get("path", "")).endswith("RangeFull"):
+                    partial.append(strip_generics(rty.get("path", "")).split("::")[-1])
+        carried = any("field:buffer" in local_sources(b, st["rv"]["op"]["place"]["local"]) for st in ws
+                      if st["rv"]["k"] == "use" and st["rv"]["op"].get("k") in ("copy", "move"))
+        rep.instance("%s replaces the buffer: contents carried over=%s, partial slices of the old buffer=%s" % (rn, carried, partial))
+        rep.oblige(carried and not partial, "BOOK|realloc|%s" % rn, b.span,
+                   "%s replaces the buffer without carrying every byte over at its index (%s)" % (rn, "copies only a %s of it" % "/".join(partial) if partial else "old contents not copied"))
+    if n_repl < 1:
+        raise AnchorLost("R-OFFSET-BOOK: no function replacing the buffer found (ensure_capacity expected)")
     # position is otherwise only advanced (cursor moves forward over bytes it owns): covered by INV (R-PANIC-ITER) and RECOVER-MONO
     seen = {}
     for variant in ("None", "Some"):
@@ -779,9 +810,17 @@ def _tile_run(prog, entry_variant, entry="read_tag"):
             gset(c.st, "szlen", LinForm.var((dloc[0], dloc[1] + (("v", 0), 0, ("v", 1), 0, 1))))
             gset(c.st, "vsize", LinForm.var((dloc[0], dloc[1] + (("v", 0), 0, ("v", 1), 0, 0))))
 
+    PVH = ITER + "::peek_valid_tag_header"
+    summ = {EDR: summary_edr, PTI: summary_pti}
+    always = [EDR] if entry == "peek_tag_id" else [EDR, PTI]
+    if entry == "try_recover":
+        # the look-ahead does not move the cursor (it only calls the two cursor-preserving functions above and never writes the position:
+        # checked below as a premise), so for the distance computation it is summarised like ensure_data_read
+        summ[PVH] = summary_edr
+        always.append(PVH)
     eng = absrun.make_engine(prog, no_inline=["spec_util::validate_tag_path", "tools::arr_to_u64", "tools::arr_to_i64", "tools::arr_to_f64"],
                              post_assume={ITER + "::current_offset": it._pa_offset}, eof_partition=False,
-                             summaries={EDR: summary_edr, PTI: summary_pti}, always_summarize=[EDR] if entry == "peek_tag_id" else [EDR, PTI])
+                             summaries=summ, always_summarize=always)
     eng.models = dict(eng.models)
     eng.models["tools::read_vint"] = model_read_vint
     out = {"checks": [], "entry": entry_variant}
@@ -897,6 +936,49 @@ def _tile_run(prog, entry_variant, entry="read_tag"):
                 check("a payload that is cut short does not move the cursor", "read_tag_data Ok(None) exit", ok)
 
     def on_aggregate(st=None, frame=None, rv=None, span=None, **kw):
+        if entry == "try_recover" and rv.get("agg") == "adt" and strip_generics(rv["path"]).endswith("EBMLSize") and rv.get("variant") == "Known" \
+                and frame.body.path == ITER + "::try_recover":
+            # Known(size + diff): one addend must be the distance the cursor moved since try_recover was entered
+            b = frame.body
+            op = rv["ops"][0]
+            addends = []
+            for _ in range(4):
+                if op.get("k") not in ("copy", "move"):
+                    break
+                d = _def_of(b, op["place"]["local"])
+                if d is None:
+                    # `&usize + usize` is a call of <&usize as Add<usize>>::add
+                    for cb, t, c in b.calls():
+                        if t["dest"]["local"] == op["place"]["local"] and not t["dest"]["proj"] and c is not None and strip_generics(c["path"]) == "std::ops::Add::add":
+                            addends = list(t["args"])
+                    break
+                if d["rv"]["k"] == "binop" and d["rv"]["op"] in ("Add", "AddWithOverflow", "AddUnchecked"):
+                    addends = [d["rv"]["a"], d["rv"]["b"]]
+                    break
+                if d["rv"]["k"] == "use":
+                    op = d["rv"]["op"]
+                else:
+                    break
+            cu = cur(st)
+            ok = False
+            from absval import Ref
+            more = []
+            for a in addends:
+                if a.get("k") in ("copy", "move") and not a["place"]["proj"]:
+                    d2 = _def_of(b, a["place"]["local"])
+                    if d2 is not None and d2["rv"]["k"] == "use":
+                        more.append(d2["rv"]["op"])     # a moved-from temporary: look at what it was copied from
+            for a in addends + more:
+                v_, loc_ = eng.eval_operand(st, frame, a)
+                if isinstance(v_, Ref) and v_.cell is not None:
+                    loc_ = (v_.cell, v_.path)
+                    v_ = eng.read_loc(st, loc_)
+                al = eng.lin_of(st, v_, loc_) if isinstance(v_, Int) else None
+                if al is not None and cu is not None and st.entails_eq(al - cu + LinForm.var(G["off0"])):
+                    ok = True
+            check("open known-size masters are stretched by exactly the number of bytes skipped", "try_recover: EBMLSize::Known construction", ok,
+                  None if addends else "the new size is not computed as old size + distance")
+            return
         # Ok(ProcessingTag { tag, size, tag_start, data_start }) built by read_tag itself: looked at here, before the Ok and Err paths meet
         if rv.get("agg") != "adt" or not strip_generics(rv["path"]).endswith("ProcessingTag") or frame.body.path != ITER + "::read_tag":
             return
@@ -973,4 +1055,36 @@ def r_tile(ctx):
     for (what, where), (ok, why, n) in sorted(seen.items()):
         rep.instance("%s @ %s: %s on %d abstract paths" % (what, where, "proved" if ok else "NOT proved", n))
         rep.oblige(ok, "TILE|%s" % what.split(" (")[0], where, "%s (%s): %s" % (what, where, why))
+    return rep
+
+
+def r_recover_stretch(ctx):
+    rep = RuleReport("R-RECOVER-STRETCH", "abstract interpretation of try_recover with a ghost for the cursor at entry: the amount added to every open known-size "
+                     "master is exactly the number of bytes the cursor moved (so the masters end where they would have ended)")
+    prog = ctx.prog
+    from rules import iterator as it
+    pvh = find_one(prog, "TagIterator::peek_valid_tag_header")
+    bad = []
+    for b in it._reachable_fns(prog, pvh):
+        for bd in [b] + prog.closures_of(b.path):
+            if it._field_writes(bd, "internal_buffer_position") and b.name not in ("ensure_data_read",):
+                bad.append(b.name)
+    rep.instance("functions reachable from the look-ahead that write the position: %s" % (sorted(set(bad)) or "only ensure_data_read"))
+    rep.oblige(not bad, "STRETCH|lookahead-pure", pvh.span, "the header look-ahead moves the cursor (position written by %s): the distance computed by try_recover is not the bytes skipped" % sorted(set(bad)))
+    seen = {}
+    for variant in ("None", "Some"):
+        res = _tile_run(prog, variant, "try_recover")
+        rep.analysed.append("try_recover[buffer_offset=%s] (%d steps)" % (variant, res["steps"]))
+        for a in res["assumptions"]:
+            if a not in rep.assumed:
+                rep.assumed.append(a)
+        for c in res["checks"]:
+            k = (c["what"], c["where"])
+            prev = seen.get(k)
+            seen[k] = (c["ok"] and (prev[0] if prev else True), c.get("why") or (prev[1] if prev else None), (prev[2] if prev else 0) + 1)
+    if not any(w.startswith("open known-size masters are stretched") for (w, _) in seen):
+        raise AnchorLost("R-RECOVER-STRETCH: the size update of the open masters was not reached")
+    for (what, where), (ok, why, n) in sorted(seen.items()):
+        rep.instance("%s @ %s: %s on %d abstract paths" % (what, where, "proved" if ok else "NOT proved", n))
+        rep.oblige(ok, "STRETCH|%s" % what.split(" (")[0], where, "%s (%s): %s" % (what, where, why))
     return rep
